@@ -188,9 +188,18 @@ class ServeManifest(RequestHandlerBase):
                 if pos != options.updateCount:
                     continue
             else:
+                if not isinstance(
+                        options.availabilityStartTime, datetime.datetime):
+                    # a time of day only selects a manifest of a live stream
+                    continue
                 tm = options.availabilityStartTime.replace(
                     hour=pos.hour, minute=pos.minute, second=pos.second)
-                tm2 = tm + datetime.timedelta(seconds=options.minimumUpdatePeriod)
+                # the update period that is used by this manifest (the
+                # option might not have been given, or disable updates)
+                mup = getattr(context['mpd'], 'minimumUpdatePeriod', None)
+                if mup is None:
+                    mup = 0
+                tm2 = tm + datetime.timedelta(seconds=mup)
                 if context['mpd'].now < tm or context['mpd'].now > tm2:
                     continue
             if (
